@@ -6,6 +6,11 @@ ids = [p['id'] for p in props]
 
 # id -> (category, technique, text, note, design_ref)
 CHECKS = {
+ 'C07': ('exploration',
+         'grammar-based generation + token-level mutation + token soup, outcome classifier as oracle, in isolated child processes; coverage-guided libFuzzer target for the thorough tier',
+         'Well-formed documents from every generator of the framework, the same with 1-4 token-level mutations, and token soup are translated in all three modes through the preview path (semantic passes run on trees with ERROR/MISSING nodes) and every diagnostic is rendered with codespan; the classifier demands: no panic, output or a syntax error or an error diagnostic, all ranges inside the text on character boundaries, well-formed serialised output. Children with a per-case watchdog and a memory limit turn stack exhaustion, runaway allocation and hangs into violations with replay files; a sample and deep-nesting probes go through the real binary (exit status 0/1, no panic text).',
+         'Inputs with syntax trees deeper than 64 are excluded in-process and probed through the binary (known finding: recursive walkers exhaust the stack). Termination is judged by watchdog with margin and confirmation.',
+         'DESIGN.md section 3 C07'),
  'C17': ('exploration',
          'model-based property testing: generated class graphs against an independent reachability oracle, in isolated child processes',
          'Class graphs of 1-14 classes with multiple inheritance, diamonds, cycles, self references, dangling names, enums named as super classes and non-public edges, and small name pools for properties, methods, enums and variants (so shadowing is common) are loaded as type information; every pairwise derives-from/common-base query and every (class, name) lookup is compared with a reachability oracle over public resolvable edges written in the harness. The search runs in child processes with a per-case watchdog and a memory limit, so unbounded recursion, allocation or looping becomes a violation with a replay file.',
